@@ -9,14 +9,19 @@ package c04
 // as several `---` documents of one file) and the target document; the two projects must be equal.
 
 import (
+	"context"
 	"encoding/json"
 	"fmt"
+	"os"
 	"reflect"
 	"regexp"
 	"sort"
 	"strconv"
 	"strings"
 	"time"
+
+	"github.com/compose-spec/compose-go/v2/loader"
+	"github.com/compose-spec/compose-go/v2/override"
 
 	"verifharness/core"
 )
@@ -111,6 +116,57 @@ func c04Load(docs []string, multi bool) any {
 	return core.LoadOutcome(core.LoadReq{Files: files, ConfigFiles: cfgs, ProjectName: "p", Profiles: []string{"*"}})
 }
 
+// c04ModelFixpoint: the invariant of the fold proved in Props/C04Stage.lean (`loadFilesU_deduplicated`), observed on the
+// real loader: the model accumulated over all files and documents (every stage of processRawYaml included; no
+// normalisation / default values afterwards) is a fixed point of override.EnforceUnicity — every keyed list holds a
+// single entry per key.  Returns "" or the first position at which EnforceUnicity still changes the model.
+func c04ModelFixpoint(docs []string, multi bool) string {
+	files := map[string]string{}
+	for k, v := range c04OracleFiles {
+		files[k] = v
+	}
+	var cfgs []string
+	if multi {
+		files["compose.yaml"] = strings.Join(docs, "\n---\n") + "\n"
+		cfgs = []string{"compose.yaml"}
+	} else {
+		for i, d := range docs {
+			n := fmt.Sprintf("compose.%d.yaml", i)
+			files[n] = d + "\n"
+			cfgs = append(cfgs, n)
+		}
+	}
+	root, err := core.Materialize(files)
+	defer os.RemoveAll(root)
+	if err != nil {
+		return ""
+	}
+	req := core.LoadReq{Files: files, ConfigFiles: cfgs}
+	model, err := loader.LoadModelWithContext(context.Background(), req.Details(root), func(o *loader.Options) {
+		o.SkipNormalization = true
+		o.SkipDefaultValues = true
+		o.SkipConsistencyCheck = true
+		o.Profiles = []string{"*"}
+		o.SetProjectName("p", true)
+	})
+	if err != nil {
+		return "" // rejected splits are reported by the comparison with the target
+	}
+	before := core.EncodeVal(model)
+	again, err := override.EnforceUnicity(model)
+	if err != nil {
+		return "error: " + c04ErrClass(err)
+	}
+	after := core.EncodeVal(again)
+	bb, _ := json.Marshal(before)
+	ab, _ := json.Marshal(after)
+	if string(bb) == string(ab) {
+		return ""
+	}
+	where, a, b := c04Diff("", core.DecodeVal(before), core.DecodeVal(after))
+	return fmt.Sprintf("%s: the loaded model holds %s, EnforceUnicity makes it %s", where, c04Short(a), c04Short(b))
+}
+
 var c04ErrScrub = regexp.MustCompile(`compose\.\d+\.yaml|compose\.yaml|target\.yaml`)
 
 func init() {
@@ -121,7 +177,7 @@ func init() {
 			if err := json.Unmarshal(raw, &c); err != nil {
 				return map[string]any{"bad": err.Error()}
 			}
-			return map[string]any{"split": c04Load(c.Docs, c.MultiDoc), "target": c04Load([]string{c.Target}, false)}
+			return map[string]any{"split": c04Load(c.Docs, c.MultiDoc), "target": c04Load([]string{c.Target}, false), "fixpoint": c04ModelFixpoint(c.Docs, c.MultiDoc)}
 		},
 		Judge: func(args, real, _ json.RawMessage) *core.Verdict {
 			if v := core.CrashVerdict(real); v != nil {
@@ -130,13 +186,18 @@ func init() {
 			var c c04SplitCase
 			json.Unmarshal(args, &c)
 			var r struct {
-				Split  map[string]any `json:"split"`
-				Target map[string]any `json:"target"`
+				Split    map[string]any `json:"split"`
+				Target   map[string]any `json:"target"`
+				Fixpoint string         `json:"fixpoint"`
 			}
 			if err := json.Unmarshal(real, &r); err != nil || r.Split == nil || r.Target == nil {
 				return core.Disagree("c04.split: unreadable outcome")
 			}
 			attrs := strings.Join(c.Attrs, "+")
+			if r.Fixpoint != "" {
+				where := strings.SplitN(r.Fixpoint, ":", 2)[0]
+				return core.Fail("not-deduplicated:"+c04KeyOfPath(where), fmt.Sprintf("split %s: after the last file the accumulated model is not a fixed point of EnforceUnicity (a keyed list holds two entries for one key) at %s", attrs, r.Fixpoint))
+			}
 			tOk, tHas := r.Target["ok"]
 			if !tHas {
 				// the generated target is not a valid compose document: outside the domain
